@@ -10,7 +10,7 @@ from ..rules import typestate as ts
 from ..rules.entries import skeleton
 from ..rules.match import (const_num, m_arrcall, m_binop, m_method, peel_guards, product_factors,
                            zero_guard)
-from ..symex import (call_parts, const, func_name, getitem, match_scan, show, strip_wrappers,
+from ..symex import (Evaluator, call_parts, const, func_name, getitem, match_scan, show, strip_wrappers,
                      subterms, array_fn)
 
 ID = "C09"
@@ -285,6 +285,27 @@ def killed(ctx):
                     for nd in _ast.walk(init.node))
         calls_super = any(isinstance(nd, _ast.Call) and isinstance(nd.func, _ast.Name) and nd.func.id == "super"
                           for nd in _ast.walk(init.node))
+        if not (found or calls_super):
+            # the initial state may be assembled by a private helper (shared between the restricted and the
+            # unrestricted class): decided on the value graph, helpers opened in place
+            ev_ = Evaluator(p)
+            ev_.auto_inline_helpers = True
+            try:
+                r_ = ev_.result(ev_.eval_function(init))
+            except Exception:
+                r_ = None
+            w_ = strip_wrappers(getitem(r_, const("weights"))) if r_ is not None else None
+            sized = w_ is not None and any(
+                x.op == "call" and (array_fn(x) or "") in ("ones", "full", "ones_like") and any(
+                    y.op == "attr" and y.args[1] == "n_walkers" for y in subterms(x)) for x in subterms(w_))
+            if sized:
+                found = True
+            elif w_ is None or not any(x.op == "call" and (array_fn(x) or "") in ("ones", "full", "zeros", "empty", "array")
+                                        for x in subterms(w_)):
+                ctx.rep.note(f"{q}.init_prop_data: the initial weights are produced in a way the value graph does not follow "
+                             f"({show(w_, maxdepth=2)[:60] if w_ is not None else 'no result'}); the population-size rule is "
+                             f"not applied")
+                continue
         ctx.ob("COUNT-1", f"{q}.init_prop_data: weights have n_walkers entries", found or calls_super,
                "weights = ones(self.n_walkers)" if found else "delegates to super().init_prop_data", init,
                nontrivial=found)
